@@ -94,7 +94,7 @@ func (x *Exec) relevantDefs(assumes []*Term, defs []map[*Term]bool, goalParts ..
 				continue
 			}
 			syms := x.localSyms(a)
-			take := len(syms) == 0
+			take := len(syms) == 0 || (defs != nil && x.alwaysKeep[i]) // (index-aligned with x.assumes at both call sites that pass defs)
 			if i < len(defs) && defs[i] != nil {
 				// a defining hypothesis: relevant only through the symbols it defines
 				for s := range defs[i] {
